@@ -1,0 +1,21 @@
+//go:build verif
+
+// Contracts for the verification machinery in /verif (comment-only; never compiled into a binary).
+
+package system
+
+//@ func MilliCPUToShares [C14]
+//@   requires 0 - 1000000000000000 <= milliCPURequest && milliCPURequest <= 1000000000000000
+//@   ensures #min: milliCPURequest <= 0 ==> result == 2
+//@   ensures #conv: milliCPURequest > 0 ==> result == max(2, min(262144, milliCPURequest * 1024 / 1000))
+//@   ensures #range: 2 <= result && result <= 262144
+//@   modifies nothing
+//@   option arith checked
+
+//@ func MilliCPUToQuota [C14]
+//@   requires 0 - 50000000000000 <= milliCPULimit && milliCPULimit <= 50000000000000
+//@   ensures #unlimited: milliCPULimit <= 0 ==> result == 0 - 1
+//@   ensures #floor: 0 < milliCPULimit && milliCPULimit < 10 ==> result == 1000
+//@   ensures #conv: milliCPULimit >= 10 ==> result == milliCPULimit * 100
+//@   modifies nothing
+//@   option arith checked
